@@ -126,6 +126,9 @@ theorem vinv_step (s : St) (t : Nat) (h : ZInv s) (v : VInv s) : VInv (step s t)
   | dLen id =>
     simp only [step, hz]
     exact vinv_same s _ v rfl rfl rfl (by intro u w' id' hu; simp only [thr_setThr] at hu; split at hu <;> simp_all)
+  | dLenH id =>
+    simp only [step, hz]
+    exact vinv_same s _ v rfl rfl rfl (by intro u w' id' hu; simp only [thr_setThr] at hu; split at hu <;> simp_all)
   | dDrop id w =>
     simp only [step, hz]
     exact vinv_same s _ v rfl rfl rfl (by intro u w' id' hu; simp only [thr_setThr] at hu; split at hu <;> simp_all)
@@ -138,6 +141,9 @@ theorem vinv_step (s : St) (t : Nat) (h : ZInv s) (v : VInv s) : VInv (step s t)
       | exact vinv_same s _ v rfl rfl rfl (by intro u w' id' hu; simp only [thr_setThr] at hu; split at hu <;> simp_all)
       | exact vinv_same s _ v rfl rfl rfl (fun _ _ _ hu => hu)
   | lLen =>
+    simp only [step, hz]
+    exact vinv_same s _ v rfl rfl rfl (by intro u w' id' hu; simp only [thr_setThr] at hu; split at hu <;> simp_all)
+  | lLenH tl =>
     simp only [step, hz]
     exact vinv_same s _ v rfl rfl rfl (by intro u w' id' hu; simp only [thr_setThr] at hu; split at hu <;> simp_all)
 
